@@ -111,9 +111,29 @@ def coqc_file(path, timeout=900):
     return rc, out
 
 
+def mem_available_gb():
+    try:
+        for line in open('/proc/meminfo'):
+            if line.startswith('MemAvailable:'):
+                return int(line.split()[1]) / (1 << 20)
+    except Exception:
+        pass
+    return 16.0
+
+
 def coq_eval_many(files, jobs=16, timeout=900):
+    """evaluate case files with coqc in parallel. A vm_compute over a large case file can take several GB: the number of
+    parallel jobs follows the memory that is available now, and a coqc that was killed (out of memory) is run again on
+    its own before its result is believed."""
+    big = max([os.path.getsize(f) for f in files] or [0])
+    per_job = 1.0 if big < 150_000 else 4.5      # GB per coqc, observed (4 GB for a 240 KB libmem case file)
+    jobs = max(1, min(jobs, int(mem_available_gb() * 0.7 / per_job)))
     with ThreadPoolExecutor(max_workers=jobs) as ex:
-        return list(ex.map(lambda f: coqc_file(f, timeout), files))
+        res = list(ex.map(lambda f: coqc_file(f, timeout), files))
+    for i, (rc, out) in enumerate(res):
+        if rc in (137, -9, 134) or 'Out of memory' in out or 'Killed' in out[-200:] or 'Stack overflow' in out:
+            res[i] = coqc_file(files[i], timeout)
+    return res
 
 
 def theorems_in(props_file):
